@@ -55,7 +55,9 @@ impl Matcher for SingleExecMatcher {
     fn matches(&self, file_info: &WalkEntry, _: &mut MatcherIO) -> bool {
         let mut command = Command::new(&self.executable);
         let path_to_file = if self.exec_in_parent_dir {
-            if let Some(f) = file_info.path().file_name() {
+            // Not Path::file_name(): it is None for a path ending in `..`, whose
+            // parent() is still the directory the command runs in.
+            if let Some(f) = file_info.path().components().next_back() {
                 Path::new(".").join(f)
             } else {
                 Path::new(".").join(file_info.path())
@@ -146,7 +148,9 @@ impl MultiExecMatcher {
 impl Matcher for MultiExecMatcher {
     fn matches(&self, file_info: &WalkEntry, matcher_io: &mut MatcherIO) -> bool {
         let path_to_file = if self.exec_in_parent_dir {
-            if let Some(f) = file_info.path().file_name() {
+            // Not Path::file_name(): it is None for a path ending in `..`, whose
+            // parent() is still the directory the command runs in.
+            if let Some(f) = file_info.path().components().next_back() {
                 Path::new(".").join(f)
             } else {
                 Path::new(".").join(file_info.path())
